@@ -80,6 +80,10 @@ func (e *Engine) doCall(st *State, fr *Frame, dst *ssa.Call, cc *ssa.CallCommon,
 		}
 		args = append([]Value{iv.Val}, args...)
 	} else {
+		if ov, isOpaque := fv.(OpaqueVal); isOpaque && ov.Tag == "cancelfunc" {
+			setResult(st, nil)
+			return nil
+		}
 		f := fv.(FuncVal)
 		if f.Builtin != nil {
 			forks := e.builtin(st, fr, dst, f.Builtin, cc, args)
@@ -195,7 +199,11 @@ func (e *Engine) doCall(st *State, fr *Frame, dst *ssa.Call, cc *ssa.CallCommon,
 	if !e.executable(fn) {
 		unsupported("call to %s (no body / not in executable set)", fn)
 	}
-	// push frame and explore the callee to completion, then try to merge the outcomes
+	return e.runFn(st, fn, bindings, args, dst, advanceCaller)
+}
+
+// runFn pushes a frame for fn and explores it to completion, then tries to merge the outcomes into st.
+func (e *Engine) runFn(st *State, fn *ssa.Function, bindings, args []Value, dst *ssa.Call, advanceCaller bool) []*State {
 	nf := &Frame{fn: fn, block: fn.Blocks[0], regs: map[ssa.Value]Value{}, visits: map[int]int{}}
 	st.subAlloc++
 	nf.act = e.canonID(fmt.Sprintf("act|%s|%d", st.curKey, st.subAlloc))
@@ -450,6 +458,9 @@ func mergeValue(c *Term, a, b Value) (Value, bool) {
 	case MapVal:
 		y, ok := b.(MapVal)
 		return x, ok && x == y
+	case ChanVal:
+		y, ok := b.(ChanVal)
+		return x, ok && x == y
 	case IfaceVal:
 		y, ok := b.(IfaceVal)
 		if !ok {
@@ -506,6 +517,9 @@ func mergeValue(c *Term, a, b Value) (Value, bool) {
 func (e *Engine) mergeStates(outs []*State, basePC, mark int, dst *ssa.Call) (*State, bool) {
 	f0 := outs[0].top()
 	for _, o := range outs[1:] {
+		if !concSame(outs[0], o) {
+			return nil, false
+		}
 		f := o.top()
 		if len(o.frames) != len(outs[0].frames) || f.block != f0.block || f.ip != f0.ip || f.prev != f0.prev {
 			return nil, false
@@ -624,6 +638,9 @@ func sameValue(a, b Value) bool {
 	case MapVal:
 		y, ok := b.(MapVal)
 		return ok && x == y
+	case ChanVal:
+		y, ok := b.(ChanVal)
+		return ok && x == y
 	case *MapObj:
 		y, ok := b.(*MapObj)
 		return ok && x == y
@@ -642,6 +659,28 @@ func sameValue(a, b Value) bool {
 	case OpaqueVal:
 		y, ok := b.(OpaqueVal)
 		return ok && x.ID == y.ID
+	case FuncVal:
+		y, ok := b.(FuncVal)
+		if !ok || x.Fn != y.Fn || x.Builtin != y.Builtin || len(x.Bindings) != len(y.Bindings) {
+			return false
+		}
+		for i := range x.Bindings {
+			if !sameValue(x.Bindings[i], y.Bindings[i]) {
+				return false
+			}
+		}
+		return true
+	case TupleVal:
+		y, ok := b.(TupleVal)
+		if !ok || len(x.Vals) != len(y.Vals) {
+			return false
+		}
+		for i := range x.Vals {
+			if !sameValue(x.Vals[i], y.Vals[i]) {
+				return false
+			}
+		}
+		return true
 	case nil:
 		return b == nil
 	}
@@ -674,6 +713,13 @@ func (e *Engine) builtin(st *State, fr *Frame, dst *ssa.Call, b *ssa.Builtin, cc
 		case PtrVal:
 			n := cc.Args[0].Type().Underlying().(*types.Pointer).Elem().Underlying().(*types.Array).Len()
 			set(ConstBV(uint64(n), 64))
+		case ChanVal:
+			c := st.chanOf(x)
+			if b.Name() == "len" {
+				set(ConstBV(uint64(len(c.buf)), 64))
+			} else {
+				set(ConstBV(uint64(c.cap), 64))
+			}
 		default:
 			unsupported("len of %T", x)
 		}
@@ -776,6 +822,15 @@ func (e *Engine) builtin(st *State, fr *Frame, dst *ssa.Call, b *ssa.Builtin, cc
 			}
 		}
 		set(acc)
+	case "close":
+		c := st.chanOf(args[0])
+		if c.closed {
+			e.fail(st, "panic", "close of closed channel")
+			return nil
+		}
+		nc := *c
+		nc.closed = true
+		st.setChan(args[0], &nc)
 	case "print", "println":
 	default:
 		unsupported("builtin %s", b.Name())
